@@ -39,7 +39,9 @@ def main(argv=None):
         chk.guard(init_rule, chk)
         from .ownership import memo_rule
         from .rules.common import anchored_files
-        chk.guard(memo_rule, chk, anchored_files().get(prop, []))
+        from .rules.common import DEPS
+        memo_files = list(anchored_files().get(prop, [])) + sorted({rel for (rel, _p), _w in DEPS.get(prop, [])})
+        chk.guard(memo_rule, chk, memo_files)
         if chk.thorough and hasattr(mod, "run_thorough"):
             mod.run_thorough(chk)
         rc = chk.finish()
